@@ -129,6 +129,13 @@ pub fn run(tier: Tier, seed: u64) -> i32 {
             items.push((api, t2));
         }
     }
+    for api in apis_of(crate::adapter::unit::suites()) {
+        for k in [None, Some(0u32)] {
+            let mut t2 = tuples[0].clone();
+            t2.p.ksf = k;
+            items.push((api, t2));
+        }
+    }
     let tot = fw::run_items("C01", &items, |(a, _)| format!("{}:{}", a.s.family(), a.name()), |(api, it), cx| {
         cx.begin_case(it.describe());
         cx.state(&(api.s.family(), it));
